@@ -9,8 +9,8 @@ import (
 // OwnSpec describes one exactly-once ownership obligation.
 type OwnSpec struct {
 	Fn      *ssa.Function
-	Start   *ssa.BasicBlock               // the resource is owned (0 consumptions) on entry to this block
-	Consume func(ssa.Instruction) bool    // instruction consumes the resource
+	Start   *ssa.BasicBlock                     // the resource is owned (0 consumptions) on entry to this block
+	Consume func(ssa.Instruction) bool          // instruction consumes the resource
 	End     func(from, to *ssa.BasicBlock) bool // edge that ends the obligation (e.g. back to the loop header)
 	Skip    func(from, to *ssa.BasicBlock) bool // edges on which there is no resource (nil/!ok arms)
 }
